@@ -396,9 +396,9 @@ class Gen:
             return self.big_union(ns)
         if depth > 0 and r.random() < self.overlap_bias:
             return self.overlap_union(ns)
-        if r.random() < 0.08:
+        if r.random() < 0.1:
             # primitives one of which promotes to an earlier one: the branch of the value's own type comes after a promotion target
-            chain = r.choice([["bytes", "string"], ["string", "bytes"], ["double", "int"], ["long", "int"], ["double", "float", "long", "int"],
+            chain = r.choice([["bytes", "string"], ["string", "bytes"], ["bytes", "string"], ["string", "bytes"], ["double", "int"], ["long", "int"], ["double", "float", "long", "int"],
                               ["float", "long"], ["double", "long"], ["double", "float"],
                               # ... and the other way round: the first conforming branch is decided at the range boundaries
                               ["int", "long"], ["int", "double"], ["float", "double"], ["int", "long", "double"], ["long", "double"]])
